@@ -258,10 +258,72 @@ def b_enumerate(eng, st, args, kwargs, node):
     return [(st, Opaque("enumerate", attrs={"__enumerate__": args[0]}))]
 
 
+def _static_quantifier(eng, st, g, is_any):
+    """any(...) / all(...) over a generator expression whose iterable is statically known (a tuple / *args of known length):
+    expanded element by element, left to right, with short-circuit forks."""
+    import ast as _ast
+
+    from .stmts import iter_items
+
+    if not (isinstance(g, Fn) and isinstance(g.node, _ast.GeneratorExp) and len(g.node.generators) == 1 and isinstance(g.node.generators[0].target, _ast.Name) and not g.node.generators[0].is_async):
+        return None
+    gen = g.node.generators[0]
+    s0 = st.clone()
+    saved = s0.env
+    s0.env = dict(g.closure or saved)
+    rs = eng.ev(gen.iter, s0)
+    if len(rs) != 1 or is_raised(rs[0][1]):
+        return None
+    items = iter_items(eng, rs[0][0], rs[0][1])
+    if items is None:
+        return None
+    live = [(rs[0][0], None)]
+    done = []
+    for it in items:
+        nxt = []
+        for s1, _ in live:
+            s1 = s1.clone()
+            s1.env = dict(s1.env)
+            s1.env[gen.target.id] = it
+            cur = [(s1, True)]
+            for c in gen.ifs:
+                cur2 = []
+                for s2, keep in cur:
+                    for s3, cv in eng.ev(c, s2):
+                        if is_raised(cv):
+                            done.append((s3, cv))
+                            continue
+                        for s4, b in eng.branch(s3, eng.truth(s3, cv)):
+                            cur2.append((s4, keep and b))
+                cur = cur2
+            for s2, keep in cur:
+                if not keep:
+                    nxt.append((s2, None))
+                    continue
+                for s3, v in eng.ev(g.node.elt, s2):
+                    if is_raised(v):
+                        done.append((s3, v))
+                        continue
+                    for s4, b in eng.branch(s3, eng.truth(s3, v)):
+                        if b == is_any:
+                            done.append((s4, mkbool(is_any)))  # short circuit
+                        else:
+                            nxt.append((s4, None))
+        live = nxt
+    outs = []
+    for s1, v in done + [(s, mkbool(not is_any)) for s, _ in live]:
+        s1.env = saved
+        outs.append((s1, v))
+    return outs
+
+
 def b_any(eng, st, args, kwargs, node):
     m = eng.method_models.get("any()")
     if m:
         return m(eng, st, args[0], node)
+    r = _static_quantifier(eng, st, args[0], True) if args else None
+    if r is not None:
+        return r
     raise Unsupported("any()")
 
 
